@@ -108,9 +108,27 @@ pub fn phrases(l: L) -> (String, String, String) {
     (p1, p2, compound)
 }
 
-pub const NCALLS: usize = 7;
+pub const NCALLS: usize = 10;
+/// calls 0..SCHED_CALLS are used in thread programs; the rest are partial calls for histories
+pub const SCHED_CALLS: usize = 7;
 pub fn call_name(i: usize) -> &'static str {
-    ["find_numbers(P1)", "find_numbers(P2)", "replace_numbers_in_stream(P1)", "basic_annotate+find(P2)", "text2digits(compound)", "replace_numbers_in_text(P2)", "find_numbers_iter(P1) stepwise"][i]
+    [
+        "find_numbers(P1)",
+        "find_numbers(P2)",
+        "replace_numbers_in_stream(P1)",
+        "basic_annotate+find(P2)",
+        "text2digits(compound)",
+        "replace_numbers_in_text(P2)",
+        "find_numbers_iter(P1) stepwise",
+        "find_numbers_iter(P3).next() then dropped",
+        "find_numbers_iter(P3).take(2) then dropped",
+        "find_numbers_iter(P1).next() then dropped",
+    ][i]
+}
+/// adjacent numbers separated by nothing but spaces: when one is returned the next is already being built
+pub fn phrase3(l: L) -> String {
+    let s = |n| spell::spell(l, n, Var::default());
+    format!("{} {} {} {} {}", s(25), s(12), s(30), s(1), s(2))
 }
 
 /// One API call; every callback into harness code and both call boundaries are scheduling points.
@@ -135,7 +153,7 @@ pub fn call<I: LangInterpreter>(lang: &I, l: L, i: usize) -> String {
         }
         4 => format!("{:?}|{:?}", text2digits(&compound, lang), text2digits(&p2, lang).is_ok()),
         5 => replace_numbers_in_text(&p2, lang, 10.0),
-        _ => {
+        6 => {
             let t = toks_pulled(&p1);
             let mut it = find_numbers_iter(GIter { it: t.iter() }, lang, 0.0);
             let mut out = vec![];
@@ -144,6 +162,17 @@ pub fn call<I: LangInterpreter>(lang: &I, l: L, i: usize) -> String {
                 out.push(Occ::of(&o).show());
             }
             out.join(" ")
+        }
+        // abandoned lazy scans: the iterator is dropped while the parser still holds digits
+        7 | 8 => {
+            let t = toks_pulled(&phrase3(l));
+            let it = find_numbers_iter(GIter { it: t.iter() }, lang, 0.0);
+            it.take(i - 6).map(|o| Occ::of(&o).show()).collect::<Vec<_>>().join(" ")
+        }
+        _ => {
+            let t = toks_pulled(&p1);
+            let mut it = find_numbers_iter(GIter { it: t.iter() }, lang, 10.0);
+            it.next().map(|o| Occ::of(&o).show()).unwrap_or_default()
         }
     });
     sched::point();
@@ -295,7 +324,7 @@ fn schedules(ctx: &Ctx, acc: &mut Acc, l: L, tier: Tier) {
         let sh = shared.clone();
         Arc::new(move || calls.iter().map(|&c| call(&sh.0, l, c)).collect())
     };
-    let ncalls = tier.pick(5usize, NCALLS);
+    let ncalls = tier.pick(5usize, SCHED_CALLS);
     let bound = tier.pick(1usize, 2);
     let mut programs: Vec<Vec<Vec<usize>>> = vec![];
     for a in 0..ncalls {
@@ -449,7 +478,7 @@ pub fn run(tier: Tier) -> i32 {
     acc.nontrivial = acc.states;
     let cov = json!({
         "exhaustive": true,
-        "rule": "(1) every history of <= k calls from a 7-call alphabet on one shared interpreter and on two interleaved interpreters, plus every merge order of the next() calls of two live lazy searches; (2) for 2-thread (and some 3-thread) programs over the call alphabet sharing one interpreter, every interleaving of scheduling points (call boundaries + every library callback into harness code: stream next(), first Token/BasicAnnotate method call per token, set_nan, Replace::replace) with at most `preemption_bound` preemptions, explored by re-execution under a controlled scheduler (one thread runs at a time); every call's result compared with its sequential fresh-interpreter result; (3) compile probe for Send + Sync; (4) child process with piped stdout/stderr",
+        "rule": "(1) every history of <= k calls from a 10-call alphabet (whole calls and abandoned lazy scans) on one shared interpreter and on two interleaved interpreters, plus every merge order of the next() calls of two live lazy searches; (2) for 2-thread (and some 3-thread) programs over the call alphabet sharing one interpreter, every interleaving of scheduling points (call boundaries + every library callback into harness code: stream next(), first Token/BasicAnnotate method call per token, set_nan, Replace::replace) with at most `preemption_bound` preemptions, explored by re-execution under a controlled scheduler (one thread runs at a time); every call's result compared with its sequential fresh-interpreter result; (3) compile probe for Send + Sync; (4) child process with piped stdout/stderr",
         "bounds": {"history_depth": tier.pick(2, 3), "preemption_bound_two_threads": tier.pick(1, 2), "threads": "2 (all ordered call pairs), 3 (selected)", "calls": (0..NCALLS).map(call_name).collect::<Vec<_>>()},
         "note": "states = histories + merge orders + schedules executed; one distinct outcome per program is expected on code without shared mutable state; detection power is demonstrated by seeded mutants (DESIGN.md)",
     });
